@@ -8,7 +8,9 @@ package interp
 import (
 	"fmt"
 	"go/types"
+	"strconv"
 	"strings"
+	"sync"
 
 	"verif/engine/sym"
 )
@@ -70,7 +72,9 @@ func canonKey(sb *strings.Builder, v value) bool {
 			sb.WriteString("nil;")
 			return true
 		}
-		fmt.Fprintf(sb, "i(%s):", v.t.String())
+		sb.WriteString("i(")
+		sb.WriteString(typeKey(v.t))
+		sb.WriteString("):")
 		return canonKey(sb, v.v)
 	case structure:
 		sb.WriteString("{")
@@ -89,7 +93,11 @@ func canonKey(sb *strings.Builder, v value) bool {
 		}
 		sb.WriteString("]")
 	case rtype:
-		fmt.Fprintf(sb, "rt:%s;", v.t.String())
+		sb.WriteString("rt:")
+		if v.t != nil {
+			sb.WriteString(typeKey(v.t))
+		}
+		sb.WriteString(";")
 	case *sym.Term, sstr:
 		return false
 	default:
@@ -221,4 +229,35 @@ func (it *omapIter) next() tuple {
 		}
 	}
 	return tuple{false, nil, nil}
+}
+
+// typeKey is a canonical string for a type (identical types give identical
+// strings); named and basic types are cached, composites are assembled from
+// their parts, so that map keys holding reflect.Type values are cheap.
+var typeKeyCache sync.Map // types.Type -> string
+
+func typeKey(t types.Type) string {
+	switch u := t.(type) {
+	case *types.Pointer:
+		return "*" + typeKey(u.Elem())
+	case *types.Slice:
+		return "[]" + typeKey(u.Elem())
+	case *types.Array:
+		return "[" + strconv.FormatInt(u.Len(), 10) + "]" + typeKey(u.Elem())
+	case *types.Map:
+		return "map[" + typeKey(u.Key()) + "]" + typeKey(u.Elem())
+	}
+	if s, ok := typeKeyCache.Load(t); ok {
+		return s.(string)
+	}
+	s := types.TypeString(t, nil)
+	switch t.(type) {
+	case *types.Named, *types.Basic, *types.Alias:
+		typeKeyCache.Store(t, s)
+	default:
+		if it, ok := t.(*types.Interface); ok && it.Empty() {
+			typeKeyCache.Store(t, s)
+		}
+	}
+	return s
 }
